@@ -540,6 +540,12 @@ func gallery(args []string) {
 			}
 			lr, lf, ld, lt, le, ll := 0, 0, 0, 0, 0, 0
 			for xi, ts := range sets[sk.Ctx] {
+				if sk.Fixed {
+					if xi > 0 {
+						break
+					}
+					ts.lvl = 0
+				}
 				out, err := render(sk, ts.s)
 				lr++
 				if err != nil {
@@ -599,6 +605,42 @@ func gallery(args []string) {
 		}(si)
 	}
 	wg.Wait()
+	// literal-valued expression forms generated at check time: one component per (form, value)
+	fcs := forms()
+	formCount := map[string]int{}
+	textPat := []PTok{Start("p"), Text("$V"), End("p")}
+	attrPat := []PTok{Start("p", "title", "$V"), Text("x"), End("p")}
+	regForm := func(p []PTok) int {
+		kb, _ := json.Marshal(SpecPattern(p))
+		i, ok := patIdx[string(kb)]
+		if !ok {
+			vhlib.Fatal("pattern of the expression forms is not registered")
+		}
+		return i
+	}
+	textIdx, attrIdx := regForm(textPat), regForm(attrPat)
+	for fi, fc := range fcs {
+		var buf bytes.Buffer
+		if err := fc.C.Render(bg, &buf); err != nil {
+			vhlib.Fatal("render error in expression form %s: %v", fc.Form, err)
+		}
+		out := buf.String()
+		renders++
+		formCount[fc.Form]++
+		pat, pi, ctxName := textPat, textIdx, "TextInData"
+		if fc.Attr {
+			pat, pi, ctxName = attrPat, attrIdx, "AttrDQ"
+		}
+		idn := (len(ss)+1)*idStride + fi
+		if why, desc := MatchGo(out, pat, fc.S); why != "" {
+			goFails++
+			goListed++
+			vhlib.Emit(map[string]any{"kind": "gofail", "f": goFail{ID: idn, Sink: "form-" + fc.Form, Ctx: ctxName, Kind: "form-" + fc.Form, Why: why, Desc: desc,
+				In: strconv.Quote(fc.S), Eff: strconv.Quote(fc.S), Out: strconv.Quote(out), Sent: true}})
+		}
+		writeTrace(traceLine{ID: idn, Sink: pi, In: t.Syms(fc.S), Out: t.Syms(out)})
+		tlcCases++
+	}
 	for i := range shardW {
 		shardW[i].Flush()
 	}
@@ -617,5 +659,5 @@ func gallery(args []string) {
 	}
 	vhlib.Summary(map[string]any{"sinks": len(ss), "renders": renders, "go_fails": goFails, "go_fails_listed": goListed, "drift": drift, "tlc_cases": tlcCases,
 		"shard_lines": shardN, "strings_per_context": ctxs, "strings_by_source": perSrc, "product_states_covered": states,
-		"patterns": len(pats), "edges": len(edges)})
+		"patterns": len(pats), "edges": len(edges), "expression_forms": formCount})
 }
